@@ -39,6 +39,11 @@ def rset(lo, hi):
 def run(ctx):
     q = ctx.tier == "quick"
     d = ctx.spec_copy("io")
+    # Development aid (mutation experiments): VERIF_STAGES=T runs only the
+    # trace-validation binding, VERIF_STAGES=G only generate-and-replay.
+    stages = set(os.environ.get("VERIF_STAGES", "MC,G,T").split(","))
+    if stages != {"MC", "G", "T"}:
+        ctx.extra["stages_only"] = sorted(stages)
     ctx.rule = ("G: every complete path of LimitReaderGen/TruncWriterGen (all call sizes x all answers of the wrapped "
                 "reader/writer; thin alphabet to depth 5/7, rich alphabet to depth 3/4, plus simulated long paths) replayed "
                 "call by call on ioutil.LimitReader / ioutil.TruncatedWriter with a scripted, recording reader/writer; "
@@ -61,6 +66,17 @@ def run(ctx):
               invariants=W_INV)
     ctx.tlc(d, "TruncWriter", "TruncWriterMC_run.cfg", label="writer-mc")
 
+    if "G" in stages:
+        run_g(ctx, d, q)
+    if "T" in stages:
+        run_t(ctx, d, q)
+    # optional extra (thorough only, never decisive): Apalache proves RemInv
+    # inductive over unbounded integers.
+    if not q:
+        ctx.extra["apalache_inductive_invariant"] = apalache_extra(ctx, d)
+
+
+def run_g(ctx, d, q):
     # 2. generators: complete paths (only leaves are emitted; the replay checks every step).
     def rgen(name, limits, bufs, errs, depth, **kw):
         write_cfg(d / (name + ".cfg"), "RGSpec",
@@ -76,10 +92,9 @@ def run(ctx):
         return ctx.tlc(d, "TruncWriterGen", name + ".cfg", label=name, timeout=1500, **kw)
 
     if q:
-        rgen("rgen_thin_d5", "{0, 1, 2}", "{0, 1, 3}", ERRS3, 5)
+        rgen("rgen_thin_d5", "{0, 1, 2}", "{0, 1, 3}", '{"nil", "EOF"}', 5)
         rgen("rgen_rich_d3", rset(0, 4), rset(0, 5), ERRS3, 3)
-        wgen("wgen_thin_d5", "{0, 1, 2, 3}", "{0, 1, 2, 4}", '{"nil", "E1"}', 5)
-        wgen("wgen_rich_d3", rset(0, 4), rset(0, 5), '{"nil", "E1", "E2"}', 3)
+        wgen("wgen_d5", rset(0, 4), "{0, 1, 3, 5}", '{"nil", "E1"}', 5)
     else:
         rgen("rgen_thin_d7", "{0, 1, 2}", "{0, 1, 3}", '{"nil", "EOF"}', 7)
         rgen("rgen_thin_d5", "{0, 1, 2}", "{0, 1, 3}", ERRS3, 5)
@@ -113,6 +128,8 @@ def run(ctx):
     ctx.extra["calls_to_wrapped_reader_replayed"] = s1["reader_calls"]
     ctx.extra["calls_to_wrapped_writer_replayed"] = s2["writer_calls"]
 
+
+def run_t(ctx, d, q):
     # 4. record long random histories from the real code, validate with TLC.
     nh, ns = (60, 120) if q else (600, 300)
     ctx.vh(["c15", "record-io", d / "io_trace.ndjson", ctx.scratch / "iorec.res", nh, ns])
@@ -121,11 +138,6 @@ def run(ctx):
     ctx.traces += s3["histories"] - 1
     ctx.evaluations += s3["events"]
     ctx.extra["trace_events_validated"] = s3["events"]
-
-    # 5. optional extra (thorough only, never decisive): Apalache proves RemInv
-    #    inductive over unbounded integers.
-    if not q:
-        ctx.extra["apalache_inductive_invariant"] = apalache_extra(ctx, d)
 
 
 def apalache_extra(ctx, d):
